@@ -26,7 +26,7 @@ impl ModuleAnalyzer for Provided {
 
 /// A Resolver for whole-declaration cases: refuses or maps some texts, has default JSX import
 /// sources and a jsx module name of its own, and answers resolve_types for the module.
-#[derive(Debug, Default)]
+#[derive(Debug, Default, Clone)]
 struct DeclResolver {
   map: HashMap<String, Option<String>>,
   jsx: Option<String>,
@@ -377,6 +377,16 @@ fn gen_case_inner(seed: u64, k: u64, full: bool) -> Case {
   all_texts.dedup();
   let mut exec = vec![];
   let mut types = vec![];
+  // "what a text resolves to, alone": with the resolver's mapping but WITHOUT its default JSX import source -
+  // in a .jsx/.tsx referrer the default source is injected as a dependency of its own, and when its text
+  // equals the text asked about the two would be merged into one entry (a false difference in the table)
+  let table_resolver = resolver.as_ref().map(|r| {
+    let mut r2 = r.clone();
+    r2.jsx = None;
+    r2.jsx_types = None;
+    r2
+  });
+  let resolver_for_table = table_resolver.as_ref();
   for t in &all_texts {
     let one = |k: StaticDependencyKind| {
       info_of(vec![DependencyDescriptor::Static(StaticDependencyDescriptor {
@@ -389,13 +399,13 @@ fn gen_case_inner(seed: u64, k: u64, full: bool) -> Case {
       })])
     };
     let tid = ids.id(&format!("text:{}", t));
-    if let Some(m) = parse_with(&code_referrer, GraphKind::CodeOnly, one(StaticDependencyKind::Import), resolver.as_ref()) {
+    if let Some(m) = parse_with(&code_referrer, GraphKind::CodeOnly, one(StaticDependencyKind::Import), resolver_for_table) {
       if let Some(d) = m.dependencies.get(t) {
         let r = rout_sx(&d.maybe_code, &mut ids);
         exec.push(Sx::L(vec![Sx::A(tid), r]));
       }
     }
-    if let Some(m) = parse_with(referrer, GraphKind::TypesOnly, one(StaticDependencyKind::ImportType), resolver.as_ref()) {
+    if let Some(m) = parse_with(referrer, GraphKind::TypesOnly, one(StaticDependencyKind::ImportType), resolver_for_table) {
       if let Some(d) = m.dependencies.get(t) {
         let r = rout_sx(&d.maybe_type, &mut ids);
         types.push(Sx::L(vec![Sx::A(tid), r]));
